@@ -103,6 +103,8 @@ type goRecord struct {
 	held       bool         // its search is held at the gate
 	mayEnd     bool         // a stop/timer/release may have ended it
 	superseded bool
+	stopped    bool // a stop was sent for it (its answer may legitimately arrive late)
+	closedAt   int // >= 0: bestmove lines at the barrier after the position/ucinewgame that abandoned this search
 }
 
 var checkC16 = def("C16/interleave", func(c ilCase) error {
@@ -237,6 +239,15 @@ var checkC16 = def("C16/interleave", func(c ilCase) error {
 			}
 		}
 		for k, r := range gos {
+			if r.closedAt >= 0 && !r.stopped {
+				hi := len(bms)
+				if k+1 < len(gos) {
+					hi = min(gos[k+1].bmBefore, len(bms))
+				}
+				if hi > r.closedAt && r.closedAt >= r.bmBefore {
+					return fmt.Errorf("step %d (%s): %q was emitted after the search of go #%d (%s) had been abandoned by a new position / ucinewgame and before any new go: it belongs to a superseded search", step, what, bms[r.closedAt], k, r.game.Cur().FEN())
+				}
+			}
 			if len(assigned[k]) > 1 {
 				return fmt.Errorf("step %d (%s): %d bestmove lines for go #%d (%s): %v", step, what, len(assigned[k]), k, r.game.Cur().FEN(), assigned[k])
 			}
@@ -273,6 +284,7 @@ var checkC16 = def("C16/interleave", func(c ilCase) error {
 		if !alive {
 			break
 		}
+		abandons := a.Kind == "position" || (a.Kind == "cmd" && strings.EqualFold(strings.TrimSpace(a.Line), "ucinewgame"))
 		switch a.Kind {
 		case "position":
 			ng, err := a.Pos.game()
@@ -332,7 +344,7 @@ var checkC16 = def("C16/interleave", func(c ilCase) error {
 				if why := s.barrier(); why != "" {
 					return fmt.Errorf("step %d (%q): isready not answered: %s", i, a.Line, why)
 				}
-				rec := &goRecord{game: g.Clone(), bmBefore: bm, bmMid: len(bestmoves(s.snapshotLines())), launchLo: launchesBefore, launchHi: -1}
+				rec := &goRecord{closedAt: -1, game: g.Clone(), bmBefore: bm, bmMid: len(bestmoves(s.snapshotLines())), launchLo: launchesBefore, launchHi: -1}
 				if len(gos) > 0 {
 					gos[len(gos)-1].launchHi = launchesBefore
 				}
@@ -360,6 +372,7 @@ var checkC16 = def("C16/interleave", func(c ilCase) error {
 			case "stop":
 				if len(gos) > 0 {
 					gos[len(gos)-1].mayEnd = true
+					gos[len(gos)-1].stopped = true
 					if gos[len(gos)-1].held {
 						labels = append(labels, "stop-while-search-held")
 					}
@@ -412,6 +425,9 @@ var checkC16 = def("C16/interleave", func(c ilCase) error {
 			if err := barrier(i, a.Kind+" "+a.Line); err != nil {
 				return err
 			}
+			if abandons && len(gos) > 0 && gos[len(gos)-1].closedAt < 0 {
+				gos[len(gos)-1].closedAt = len(bestmoves(s.snapshotLines()))
+			}
 		}
 	}
 	// end of script: quit (if still running), the output must close; then let every held
@@ -463,7 +479,8 @@ var checkC16 = def("C16/interleave", func(c ilCase) error {
 })
 
 var junkLines = []string{"", " ", "xyzzy", "go depth", "go depth x", "go movetime", "setoption",
-	"setoption name Hash", "setoption name Hash value x", "setoption name Depth value 2", "setoption name Noise value 3", "debug on", "ponderhit",
+	"setoption name Hash", "setoption name Hash value x", "setoption name Depth value 2", "setoption name Noise value 3", "setoption name Noise value -25", "setoption name Noise value 99999999",
+	"setoption name Depth value -1", "setoption name Noise", "setoption name Noise value abc", "setoption name Hash value 0", "setoption name Hash value 1", "debug on", "ponderhit",
 	"register later", "uci", "Go Depth 1", "stop stop", "isready now", "\tisready"}
 
 func genIlCase(t *rapid.T) ilCase {
@@ -476,6 +493,7 @@ func genIlCase(t *rapid.T) ilCase {
 	}
 	c.HoldFirst = c.Gated && rapid.IntRange(0, 2).Draw(t, "holdfirst") == 0
 	n := rapid.IntRange(2, 25).Draw(t, "nactions")
+	var lastPos *posCmd
 	for i := 0; i < n; i++ {
 		switch rapid.IntRange(0, 19).Draw(t, "akind") {
 		case 0, 1, 2, 3:
@@ -503,6 +521,23 @@ func genIlCase(t *rapid.T) ilCase {
 		case 6:
 			c.Actions = append(c.Actions, ilAction{Kind: "cmd", Line: "isready"})
 		case 7, 8, 9:
+			if lastPos != nil && rapid.IntRange(0, 1).Draw(t, "extend") == 0 {
+				// the usual GUI behaviour: the same line, extended by the moves just played
+				if lg, err := lastPos.game(); err == nil {
+					p := posCmd{FEN: lastPos.FEN, Moves: append([]string(nil), lastPos.Moves...)}
+					for k, n := 0, rapid.IntRange(0, 2).Draw(t, "extraplies"); k < n; k++ {
+						m, ok := gen.PickMove(t, lg, gen.DrawPolicy(t))
+						if !ok {
+							break
+						}
+						lg.Push(m)
+						p.Moves = append(p.Moves, m.String())
+					}
+					lastPos = &p
+					c.Actions = append(c.Actions, ilAction{Kind: "position", Pos: &p})
+					continue
+				}
+			}
 			p := posCmd{}
 			switch rapid.IntRange(0, 3).Draw(t, "poskind") {
 			case 0:
@@ -518,8 +553,10 @@ func genIlCase(t *rapid.T) ilCase {
 					p.FEN = ""
 				}
 			}
+			lastPos = &p
 			c.Actions = append(c.Actions, ilAction{Kind: "position", Pos: &p})
 		case 10:
+			lastPos = nil
 			c.Actions = append(c.Actions, ilAction{Kind: "cmd", Line: "ucinewgame"})
 		case 11:
 			c.Actions = append(c.Actions, ilAction{Kind: "cmd", Line: rapid.SampledFrom(junkLines).Draw(t, "junk")})
